@@ -31,6 +31,27 @@ def oracle_for(res):
                              + (f"{r[1]}: {r[2]}" if isinstance(r, tuple) else f"got {len(r)} identifiers, differs from DB[w]"),
                              sk.show_case(c, w))
             res.count("stored keywords searched")
+        # the same scheme object, a second key, a second index of the same database
+        for w, r in out.get("second_key", {}).items():
+            if w == "_setup":
+                sk.violation(res, f"{c['name']}: a second EDBSetup on the same scheme object raises {r[1]}",
+                             f"{c['name']} ({c['profile']}): {r[1]}: {r[2]}", sk.show_case(c))
+                break
+            if se.canon_result(c["name"], r) != se.expected(c["name"], c["db"], w):
+                sk.violation(res, f"{c['name']}: after a second KeyGen on the same scheme object a stored keyword is answered wrongly",
+                             f"{c['name']} ({c['profile']}): KeyGen, EDBSetup, searches, then KeyGen, EDBSetup, TokenGen({w.hex()}), Search: "
+                             + (f"{r[1]}: {r[2]}" if isinstance(r, tuple) else f"{len(r)} identifiers, expected {len(c['db'][w])}"),
+                             dict(sk.show_case(c, w), history="second key on the same scheme object"))
+                break
+        sub = out.get("same_key_subset")
+        if sub:
+            for w, r in sub["kept"].items():
+                exp = se.expected(c["name"], c["db"], w)
+                if se.canon_result(c["name"], r) != exp:
+                    sk.violation(res, f"{c['name']}: a second index under the same key answers a stored keyword wrongly",
+                                 f"{c['name']} ({c['profile']}): index of the database without {sub['removed'].hex()}, keyword {w.hex()}",
+                                 dict(sk.show_case(c, w), history="second index under the same key without the first keyword"))
+                    break
     return oracle
 
 
@@ -39,8 +60,8 @@ def correspond(ctx):
     n_cfg = ctx.pick(4, 12)
     cases = sk.gen_cases(ctx, se.NAMES, n_cfg, scale=ctx.pick(1, 4))
     sk.correspond(ctx, res, cases)
-    sk.direct(ctx, res, cases, oracle_for(res))
-    res.extra["schemes_with_theorem"] = ["PiBas", "PiPack"]
+    sk.direct(ctx, res, cases, oracle_for(res), history=True)
+    res.extra["schemes_with_theorem"] = ["PiBas", "PiPack", "SSE2"]
     res.extra["schemes_modelled"] = list(sc.MODELLED)
     res.rule = (f"per scheme {n_cfg} supported configurations (small block / capacity parameters so that every case split is reached) x "
                 f"{len(se.PROFILES)} database profiles (one posting; total a power of two; a single list of 2^t; lists one below / on / one above "
@@ -57,7 +78,7 @@ def search(ctx, broken, res0):
     """a proof or the correspondence broke: look for a failing input on the real code, much wider"""
     res = Result()
     cases = sk.gen_cases(ctx, se.NAMES, ctx.pick(12, 30), scale=3)
-    sk.direct(ctx, res, cases, oracle_for(res))
+    sk.direct(ctx, res, cases, oracle_for(res), history=True)
     return res
 
 
